@@ -286,6 +286,7 @@ func (p *Progress) serve(s *pState, cw *cwriter.Writer) {
 				interceptIO = nil
 			}
 		case <-p.done:
+			verifPoint("serve.done", 0, nil)
 			if err != nil {
 				_, _ = fmt.Fprintln(s.debugOut, err.Error())
 			} else if s.autoRefresh {
@@ -335,6 +336,8 @@ func (s *pState) manualRefreshListener(done chan struct{}) {
 }
 
 func (s *pState) render(cw *cwriter.Writer) (err error) {
+	verifPoint("render.begin", 0, nil)
+	defer verifPoint("render.end", 0, nil)
 	iter, iterPop := make(chan *Bar), make(chan *Bar)
 	s.hm.sync(s.iterDrop)
 	s.hm.iter(s.iterDrop, iter, iterPop)
@@ -368,6 +371,7 @@ func (s *pState) flush(cw *cwriter.Writer, height int, iter <-chan *Bar) error {
 
 	for b := range iter {
 		frame := <-b.frameCh
+		verifPoint("flush.bar", frame.shutdown, b)
 		if frame.err != nil {
 			close(s.iterDrop)
 			b.cancel()
